@@ -1426,8 +1426,20 @@ func configTagsFor(in configIn, obs configObs, gen string) []string {
 
 func init() {
 	drivers["config"] = func(ctx *Ctx) {
+		// every endless recursion costs several child processes; after 30 such cases the
+		// verdict is settled (each is a failing input) and generation stops
+		hangs := 0
 		emit := func(in configIn, gen string, extra ...string) {
+			if hangs >= 30 {
+				return
+			}
 			obs, coq := configRunConfig(ctx, in)
+			for _, v := range append(append([]int{}, obs.Curves...), obs.Fans...) {
+				if v == 2 {
+					hangs++
+					break
+				}
+			}
 			nontrivial := len(in.Curves) >= 1 && (len(in.Fans) >= 1 || len(in.Sensors) >= 1)
 			ctx.Emit(Record{In: in, Obs: obs, Coq: coq, Tags: append(configTagsFor(in, obs, gen), extra...), NonTrv: nontrivial})
 		}
